@@ -27,7 +27,7 @@ profile('core-stall', P.gen_core, cancels=0.0, stall_bias=0.9, stall_faults=0.8,
         kinds=[(2, 'rr'), (4, 'stream'), (5, 'channel'), (1, 'fnf')], framing=[(4, 'tcp'), (1, 'ws')])
 profile('core-await', P.gen_core, cancels=0.0, awaitable=0.7, kinds=[(4, 'stream'), (4, 'channel'), (1, 'rr')])
 profile('core-credit', P.gen_core, cancels=0.0, kinds=[(4, 'stream'), (5, 'channel'), (1, 'rr')],
-        sources=[(4, 'gen'), (4, 'agen'), (1, 'manual')], max_count=50, errors=False, long_streams=0.04)
+        sources=[(4, 'gen'), (4, 'agen'), (1, 'manual')], max_count=50, errors=False, long_streams=0.04, empty_requests=0.15)
 profile('core-cancel', P.gen_core, cancels=0.5, cancel_sent=1.0, on_cancel_raises=0.15, kinds=[(6, 'rr'), (6, 'stream'), (6, 'channel'), (2, 'fnf'), (1, 'push')])
 profile('core-ends', P.gen_core, cancels=0.25, p_resp_pub=0.7, p_req_pub=0.6, p_resp_sub=0.8, lib_streams=0.15,
         kinds=[(2, 'rr'), (3, 'stream'), (5, 'channel'), (1, 'fnf')])
